@@ -1,7 +1,203 @@
-/- C13 — statements under construction -/
-import AgpTpf.Model.Fasta
+/-
+  C13 — Streaming is buffer-size independent and memory-bounded.
+
+  Model: `fwdChunkList` / `revChunkList` / `gapChunkList` (`fwd_chunks`, `rev_chunks`, `get_gap_iter`, fasta/index.py),
+  `streamAssembly` with its observation fields `chunkSizes` (length of every BytesIO chunk produced) and `reads`
+  (size of every `read(n)` against the FASTA file), `indexFasta` with `maxBuffered` (largest sequence buffer held).
+
+  Proved, for EVERY file, index, assembly and every buffer size from one residue up:
+  * `fwd_chunks_tile`, `rev_chunks_reverse`, `gap_chunks` — the chunk iterators cut `[start, end]` (a gap of `len`)
+    into consecutive pieces of 1..bs residues (0..bs for the last piece of a gap) that tile it exactly;
+  * `chunk_concat_independent` — the concatenation of the forward chunks is the same for every buffer size;
+  * `stream_buffer_size_independent` — `write_assembly` writes byte-identical files for every two buffer sizes;
+  * `stream_memory_bound` — no chunk of sequence, reverse-complemented fragment or gap ever exceeds `bs` bytes and
+    no single `read` asks for more than `bs` bytes, however long the fragment or gap;
+  * `index_buffer_size_independent` — indexing ANY byte stream whose first line is a header line gives the same index
+    entries (offsets, lengths, line geometry), the same scaffolds with their N-gap rows, or the same exception, for
+    every two buffer sizes (for headerless input the exception raised can depend on the buffer size: see the
+    counterexample next to the theorem);
+  * `index_memory_bound` — the indexer's sequence buffer never exceeds `bs` residues plus one input line.
+  The two halves meet in the index: `stream_*` hold for any index that lays the records out (`RowOK`); that the index
+  computed by `indexFasta` does so is index correctness (C04), not restated here.
+
+  Helper lemmas: AgpTpf/Proofs/C03Chunks.lean, C03Stream.lean, C03Seq.lean, C03Wrap.lean, C03Index.lean, C03IndexIndep.lean.
+-/
+import AgpTpf.Proofs.C03Stream
+import AgpTpf.Proofs.C03Index
+import AgpTpf.Proofs.C03IndexIndep
+import AgpTpf.Proofs.C03Example
 namespace AgpTpf.C13
-open AgpTpf
-theorem reverseComplement_length (s : Bytes) : (reverseComplement s).length = s.length := by
-  simp [reverseComplement]
+open AgpTpf AgpTpf.ChunkProofs AgpTpf.WrapProofs AgpTpf.SeqProofs AgpTpf.StreamProofs AgpTpf.StreamExample
+
+/-! ### chunk arithmetic (`bs ≥ 1`, `start ≤ end`)
+
+  `Tiles bs a stop l` (Proofs/C03Chunks.lean): `l = [(cs₀,ce₀),…]` with `cs₀ = a`, `cs_k ≤ ce_k`,
+  `ce_k - cs_k + 1 ≤ bs`, `cs_(k+1) = ce_k + 1`, and the last `ce = stop`. -/
+
+/-- `fwd_chunks`: a non-empty list of consecutive closed intervals, first starting at `start`, each next one starting
+    right after the previous one, last ending at `stop`, each 1..bs long, total `stop - start + 1`. -/
+theorem fwd_chunks_tile (start stop bs : Int) (hbs : 1 ≤ bs) (h : start ≤ stop) :
+    ∃ hne : fwdChunkList start stop bs ≠ [],
+      ((fwdChunkList start stop bs).head hne).1 = start ∧
+      ((fwdChunkList start stop bs).getLast hne).2 = stop ∧
+      (∀ k (hk : k + 1 < (fwdChunkList start stop bs).length),
+        ((fwdChunkList start stop bs)[k + 1]).1 = ((fwdChunkList start stop bs)[k]).2 + 1) ∧
+      (∀ c ∈ fwdChunkList start stop bs, 1 ≤ c.2 - c.1 + 1 ∧ c.2 - c.1 + 1 ≤ bs ∧ start ≤ c.1 ∧ c.2 ≤ stop) ∧
+      sumInts ((fwdChunkList start stop bs).map (fun c => c.2 - c.1 + 1)) = stop - start + 1 := by
+  have ht := fwdChunkList_tiles start stop bs hbs h
+  have hne := fwdChunkList_ne_nil start stop bs hbs h
+  refine ⟨hne, ht.head hne, ht.last hne, ht.consecutive, ?_, ht.sum⟩
+  intro c hc
+  have := ht.size_le c hc
+  have := ht.within c hc
+  omega
+
+/-- the same, as the inductive tiling predicate -/
+theorem fwd_chunks_tiles (start stop bs : Int) (hbs : 1 ≤ bs) (h : start ≤ stop) :
+    Tiles bs start stop (fwdChunkList start stop bs) := fwdChunkList_tiles start stop bs hbs h
+
+/-- `rev_chunks` visits exactly the forward chunks, last to first -/
+theorem rev_chunks_reverse (start stop bs : Int) (hbs : 1 ≤ bs) (h : start ≤ stop) :
+    revChunkList start stop bs = (fwdChunkList start stop bs).reverse :=
+  revChunkList_eq_reverse start stop bs hbs h
+
+/-- `get_gap_iter`: every chunk has 0..bs bytes and together they have `max 0 len` bytes (`len` for `len ≥ 0`) -/
+theorem gap_chunks (len bs : Int) (hbs : 1 ≤ bs) :
+    sumInts (gapChunkList len bs) = max 0 len ∧ ∀ c ∈ gapChunkList len bs, 0 ≤ c ∧ c ≤ bs :=
+  gapChunkList_spec len bs hbs
+
+example : fwdChunkList 5 14 3 = [(5, 7), (8, 10), (11, 13), (14, 14)] := by decide
+example : revChunkList 5 14 3 = [(14, 14), (11, 13), (8, 10), (5, 7)] := by decide
+example : fwdChunkList 5 13 3 = [(5, 7), (8, 10), (11, 13)] := by decide
+example : gapChunkList 7 3 = [3, 3, 1] := by decide
+example : gapChunkList 6 3 = [3, 3, 0] := by decide   -- a trailing empty chunk when `bs` divides the gap length
+example : gapChunkList 0 3 = [0] := by decide
+
+/-- the concatenation of the forward chunks of a sequence is the requested interval — whatever the buffer size
+    (`slice res a b` = residues `a..b`, 1-based closed) -/
+theorem fwd_chunks_concat (res : Bytes) (start stop bs : Int) (hbs : 1 ≤ bs) (h0 : 1 ≤ start) (h : start ≤ stop) :
+    ((fwdChunkList start stop bs).map (fun c => slice res c.1 c.2)).flatten = slice res start stop :=
+  Tiles.glue (bs := bs) (slice res) 1 (fun a b c ha hab hbc => slice_append res a b c ha hab hbc) h0
+    (fwdChunkList_tiles start stop bs hbs h) (fwdChunkList_ne_nil start stop bs hbs h)
+
+theorem chunk_concat_independent (res : Bytes) (start stop bs bs' : Int) (hbs : 1 ≤ bs) (hbs' : 1 ≤ bs')
+    (h0 : 1 ≤ start) (h : start ≤ stop) :
+    ((fwdChunkList start stop bs).map (fun c => slice res c.1 c.2)).flatten
+      = ((fwdChunkList start stop bs').map (fun c => slice res c.1 c.2)).flatten := by
+  rw [fwd_chunks_concat res start stop bs hbs h0 h, fwd_chunks_concat res start stop bs' hbs' h0 h]
+
+/-- likewise for minus-strand rows: the reverse-complemented chunks, last to first, concatenate to the reverse
+    complement of the interval -/
+theorem rev_chunks_concat (res : Bytes) (start stop bs : Int) (hbs : 1 ≤ bs) (h0 : 1 ≤ start) (h : start ≤ stop) :
+    ((revChunkList start stop bs).map (fun c => reverseComplement (slice res c.1 c.2))).flatten
+      = reverseComplement (slice res start stop) := by
+  rw [rev_chunks_reverse start stop bs hbs h, ← fwd_chunks_concat res start stop bs hbs h0 h]
+  exact flatten_rc_reverse (fun c => slice res c.1 c.2) _
+
+/-! ### the stream
+
+  `RowOK file idx resOf row` (Proofs/C03Stream.lean): a fragment row names an index entry whose offsets lay the
+  residues `resOf name` out in `file`, and `1 ≤ start ≤ end ≤ |resOf name|`; gap rows (any length) are always OK. -/
+
+/-- byte-identical output for every two buffer sizes from one residue up (and both runs succeed) -/
+theorem stream_buffer_size_independent {bs bs' w : Int} (hbs : 1 ≤ bs) (hbs' : 1 ≤ bs') (hw : 1 ≤ w)
+    (file : Bytes) (idx : List (Str × FastaInfo)) (resOf : Str → Bytes) (scs : List Scaffold)
+    (hok : ∀ sc ∈ scs, ∀ r ∈ sc.rows, RowOK file idx resOf r) :
+    ∃ lg lg', streamAssembly file idx bs w scs = .ok lg ∧ streamAssembly file idx bs' w scs = .ok lg' ∧
+      lg.out = lg'.out := by
+  obtain ⟨lg, h1, h2, -, -⟩ := assembly_spec hbs hw file idx resOf scs { want := w } hok (by simp) (by simp)
+  obtain ⟨lg', h1', h2', -, -⟩ := assembly_spec hbs' hw file idx resOf scs { want := w } hok (by simp) (by simp)
+  exact ⟨lg, lg', h1, h1', by rw [h2, h2']⟩
+
+/-- memory bound: every chunk the iterators hand to the writer (sequence, reverse-complemented sequence or gap) is
+    at most `bs` bytes long, and every single `read(n)` against the FASTA file has `0 ≤ n ≤ bs` — for fragments and
+    gaps of any length. -/
+theorem stream_memory_bound {bs w : Int} (hbs : 1 ≤ bs) (hw : 1 ≤ w)
+    (file : Bytes) (idx : List (Str × FastaInfo)) (resOf : Str → Bytes) (scs : List Scaffold)
+    (hok : ∀ sc ∈ scs, ∀ r ∈ sc.rows, RowOK file idx resOf r) :
+    ∃ lg, streamAssembly file idx bs w scs = .ok lg ∧
+      (∀ c : Nat, c ∈ lg.chunkSizes → (c : Int) ≤ bs) ∧ (∀ r ∈ lg.reads, 0 ≤ r ∧ r ≤ bs) := by
+  obtain ⟨lg, h1, -, h3, h4⟩ := assembly_spec hbs hw file idx resOf scs { want := w } hok (by simp) (by simp)
+  exact ⟨lg, h1, h3, h4⟩
+
+/-- the writer itself holds at most one `read(want)` of a chunk, `want ≤ w`: see `C03.writer_is_wrapper`;
+    and the bytes it writes do not depend on how the sequence is cut into chunks: `C03.writer_chunking_irrelevant`. -/
+theorem writer_holds_at_most_a_line (want : Int) (chunk : Bytes) (h1 : 1 ≤ want) :
+    (chunk.take want.toNat).length ≤ want.toNat ∧ ((chunk.take want.toNat).length : Int) ≤ want := by
+  simp only [List.length_take]; omega
+
+example : ∀ sc ∈ [exScaffold, exScaffold.reverse], ∀ r ∈ sc.rows, RowOK exFile exIdx exResOf r := by
+  intro sc hsc
+  simp only [List.mem_cons, List.not_mem_nil, or_false] at hsc
+  rcases hsc with rfl | rfl
+  · exact exRowsOK
+  · intro r hr
+    simp only [Scaffold.reverse, List.mem_map, List.mem_reverse] at hr
+    obtain ⟨r0, hr0, rfl⟩ := hr
+    have := exRowsOK r0 hr0
+    cases r0 <;> exact this
+
+/-- the model run on the fixture with buffer sizes 1, 2, 3, 5, 100: same bytes; chunk sizes as predicted -/
+example : (streamAssembly exFile exIdx 1 4 [exScaffold]).toOption.map (·.out)
+    = (streamAssembly exFile exIdx 100 4 [exScaffold]).toOption.map (·.out) := by decide +kernel
+example : (streamAssembly exFile exIdx 2 4 [exScaffold]).toOption.map (·.out)
+    = (streamAssembly exFile exIdx 5 4 [exScaffold]).toOption.map (·.out) := by decide +kernel
+example : (streamAssembly exFile exIdx 3 4 [exScaffold]).toOption.map (·.chunkSizes)
+    = some [3, 1, 2, 2, 3] := by decide +kernel
+example : (streamAssembly exFile exIdx 3 4 [exScaffold]).toOption.map (·.reads)
+    = some [3, 1, 2, 3] := by decide +kernel
+
+/-! ### the indexer -/
+
+/-- Indexing is buffer-size independent: for ANY list of input lines whose first line is a header line (starts with
+    `>` = 62; the rest may be well-formed FASTA or not) and ANY two buffer sizes, `index_fasta_file` ends in the same
+    state up to the memory observation `maxBuffered` (`IndexProofs.strip` sets that one field to 0) — same index
+    entries, same scaffolds and gap rows, same offsets — or raises the same exception. -/
+theorem index_buffer_size_independent_state (lines : List Bytes) (bs bs' : Int)
+    (hhead : lines.head?.bind (·.head?) = some 62) :
+    Except.map IndexProofs.strip (indexFasta lines bs) = Except.map IndexProofs.strip (indexFasta lines bs') :=
+  IndexProofs.indexFasta_bs_independent lines bs bs' hhead
+
+/-- in particular the index and the assembly read from the FASTA file are identical -/
+theorem index_buffer_size_independent (lines : List Bytes) (bs bs' : Int)
+    (hhead : lines.head?.bind (·.head?) = some 62) :
+    Except.map (fun st => (st.idx, st.scaffolds)) (indexFasta lines bs)
+      = Except.map (fun st => (st.idx, st.scaffolds)) (indexFasta lines bs') := by
+  have h := IndexProofs.indexFasta_bs_independent lines bs bs' hhead
+  have key : ∀ x : R IdxState, Except.map (fun st => (st.idx, st.scaffolds)) x
+      = Except.map (fun st => (st.idx, st.scaffolds)) (Except.map IndexProofs.strip x) := by
+    intro x; cases x <;> rfl
+  rw [key (indexFasta lines bs), key (indexFasta lines bs'), h]
+
+example : (bLines exFile).head?.bind (·.head?) = some 62 := by decide
+
+/-- Without the header hypothesis the statement is FALSE of the code (malformed input only): a headerless,
+    unterminated single line `AC` raises `ValueError` ("no sequences") with a large buffer but `TypeError`
+    (`process_seq_buffer` adds to `seq_length = None`) with a buffer smaller than the line — the exception raised
+    depends on the buffer size. Both runs fail, so no index ever differs. -/
+example : (match indexFasta [[65, 67]] 100 with | .error e => some e | .ok _ => none) = some Err.value := by
+  decide +kernel
+example : (match indexFasta [[65, 67]] 1 with | .error e => some e | .ok _ => none) = some Err.type := by
+  decide +kernel
+
+example : (indexFasta (bLines exFile) 1).toOption.map (fun st => (st.idx, st.scaffolds))
+    = (indexFasta (bLines exFile) 7).toOption.map (fun st => (st.idx, st.scaffolds)) := by decide +kernel
+example : (indexFasta (bLines exFile) 1).toOption.map (·.scaffolds) = some
+    [{ name := "x".toList, rows :=
+        [.frag { oid := 0, name := "x".toList, start := 1, stop := 4, strand := 1 },
+         .gap { length := 2, gapType := Gen.fastaGapType },
+         .frag { oid := 1, name := "x".toList, start := 7, stop := 11, strand := 1 }] }] := by decide +kernel
+
+/-- While indexing with buffer size `bs ≥ 0` a file whose lines (binary mode, terminator included) are at most `m`
+    bytes long, the sequence buffer never holds more than `bs + m` residues ("plus one input line"), however long
+    the sequences are. (`maxBuffered` records the buffer length after every append.) -/
+theorem index_memory_bound (lines : List Bytes) (bs : Int) (hbs : 0 ≤ bs) (m : Nat)
+    (hm : ∀ l ∈ lines, l.length ≤ m) (st : IdxState) (h : indexFasta lines bs = .ok st) :
+    st.maxBuffered ≤ bs.toNat + m :=
+  IndexProofs.indexFasta_maxBuffered lines bs hbs m hm st h
+
+example : (indexFasta (bLines exFile) 3).toOption.map (·.maxBuffered) = some 4 := by decide +kernel
+example : (indexFasta (bLines exFile) 100).toOption.map (·.maxBuffered) = some 11 := by decide +kernel
+example : ∀ l ∈ bLines exFile, l.length ≤ 5 := by decide
+
 end AgpTpf.C13
